@@ -63,6 +63,27 @@ func genExt4Cfg(r *core.Rng, tier string, t *core.Trace, wide bool) {
 		t.Cfg["logflex"] = core.PickOf[int64](r, 0, 0, 0, 1, 2, 3) // groups per flex group = 2^n (0 = default 16)
 		t.Cfg["iratio"] = core.PickOf[int64](r, 0, 0, 8192, 16384, 65536, 1024, 2048)
 		t.Cfg["icount"] = core.PickOf[int64](r, 0, 0, 0, 128, 1000)
+		if r.Chance(25) {
+			// a last block group of 0..3000 blocks behind 1..5 full ones: the sizes around which Create has to
+			// decide whether the last group can hold its own metadata
+			bs := int64(1024)
+			if t.Cfg["spb"] == 8 {
+				bs = 4096
+			}
+			bpg := t.Cfg["bpg"]
+			if bpg == 0 {
+				bpg = bs * 8
+			}
+			if full := r.Range(1, 5) * bpg * bs; full+3000*bs <= 300<<20 {
+				t.Cfg["size"] = full + bs*(1+r.Range(0, 3000))
+				if tier == "quick" && t.Cfg["size"] > 48<<20 {
+					t.Cfg["size"] = bpg*bs + bs*(1+r.Range(0, 3000))
+					if t.Cfg["size"] > 48<<20 {
+						t.Cfg["size"] = 32 << 20 // (4 KiB blocks: a group is 128 MiB; left to the thorough tier)
+					}
+				}
+			}
+		}
 	} else {
 		t.Cfg["flexbg"] = 1
 	}
